@@ -228,6 +228,9 @@ def streams_for(prop, seed, tier, boost=1):
             mixed.append(g.rnd.choice(['hdec 1c', 'hdec ffffffff', 'hdec 00', 'hdec 1e', 'hdec ' + genmod.hx(bytes(g.rnd.randrange(256) for _ in range(3)))]))
             mixed.append('hrt ' + genmod.hx(bytes(g.rnd.choice(b'custom-key0123abc') for _ in range(g.rnd.randint(1, 12)))))
         add('henc-after-rejects', mixed)
+        add('huff-large', genmod.huff_large_stream(full=T))
+        add('huff-copies', genmod.huff_copy_stream(G('hc')))
+        add('copies', genmod.copy_stream(G('cp')))
     elif prop == 'C13':
         add('hdec', G('hdec').hdec_stream(n_random=400 * k))
         add('hdec-transitions', genmod.huff_transition_catalogue())
@@ -235,6 +238,10 @@ def streams_for(prop, seed, tier, boost=1):
         add('hdec-shared-buffer', genmod.hdec_shared_stream(G('hs'), n=80 * k))
         rep = G('hdec2').hdec_stream(n_random=150 * k)
         add('hdec-repeated-in-one-process', rep + rep[::-1] + rep)
+        add('huff-large', genmod.huff_large_stream(full=T))
+        add('huff-copies', genmod.huff_copy_stream(G('hc')))
+        add('copies', genmod.copy_stream(G('cp')))
+        add('hdec-buffer-kinds', [o.split(' #')[0] + ' #buf=' + kd for o in genmod.huff_transition_catalogue()[::7] for kd in ('mv-bytearray', 'array-B', 'mv-slice')])
         if T:
             add('hdec-exhaustive', G('x').hdec_exhaustive())
     elif prop in ('C06', 'C14'):
